@@ -273,8 +273,10 @@ def _tok_of(t):
     """(placeholder name, scale) of a reader value k * Lex(TOK)."""
     scale = sp.Integer(1)
     cur = t
-    while isinstance(cur, App) and cur.name in ('binop:Mult', 'binop:Div') and is_num(cur.args[1]):
-        scale = scale * cur.args[1] if cur.name == 'binop:Mult' else scale / cur.args[1]
+    while isinstance(cur, App) and ((cur.name in ('binop:Mult', 'binop:Div') and is_num(cur.args[1]))
+                                   or cur.name == 'attr:value'):
+        if cur.name != 'attr:value':
+            scale = scale * cur.args[1] if cur.name == 'binop:Mult' else scale / cur.args[1]
         cur = cur.args[0]
     if isinstance(cur, App) and cur.name in ('astropy.coordinates.Angle', 'astropy.units.Quantity') and \
             isinstance(cur.args[0], Obj):
@@ -307,8 +309,11 @@ def r3(ctx):
             args = [a for a in fc.args[1:] if not (isinstance(a, Tup) and len(a.items) == 2 and isinstance(a.items[0], Const)
                                                    and isinstance(a.items[0].v, str))]
             token = re.match(r'\{0\}(\w+)\[', template).group(1)
-            pr, sh, reg, (coords, lens) = eval_reader(m, template, token)
+            gm = {'coord': Const('image')} if coordsys == 'image' else None
+            pr, sh, reg, (coords, lens) = eval_reader(m, template, token, global_meta=gm)
             probs = []
+            if reg is not None and reg.cls != wci.name:
+                probs.append(f'the line written for a {wci.name} is read back as a {reg.cls}')
             if reg is None:
                 probs.append(f'the reader builds no region from the writer\'s own template ({template})')
             else:
@@ -372,6 +377,54 @@ def r3(ctx):
                 ctx.bad(construct, 'slots-and-units', '; '.join(probs), ser.loc(), {'template': template})
             else:
                 ctx.ok(construct, f'{fields} return to their slots; written in the labelled unit; scales cancel')
+    # polygons: the writer's vertex piece (an f-string inside to_crtf), repeated for three vertices, must be read back as
+    # vertices (x: entries 1, 3, 5; y: entries 2, 4, 6), as plain numbers in image coordinates
+    sl = m.cls('_ShapeList')
+    tc = method_or_fail(ctx, sl, 'to_crtf')
+    piece = None
+    for n in ast.walk(tc.node):
+        if isinstance(n, ast.JoinedStr) and sum(isinstance(v, ast.FormattedValue) for v in n.values) == 2 \
+                and isinstance(n.values[0], ast.Constant) and str(n.values[0].value).startswith('['):
+            k = iter(range(1, 3))
+            piece = ''.join(str(v.value) if isinstance(v, ast.Constant) else '{%d}' % next(k) for v in n.values)
+    ctx.need(piece is not None, '_ShapeList.to_crtf', 'polygon vertex piece not found')
+    verts = ', '.join(piece.replace('{1}', '{%d}' % (2 * i + 1)).replace('{2}', '{%d}' % (2 * i + 2)) for i in range(3))
+    ptpl = '{0}poly[' + verts + ']'
+    for coordsys, gm in (('fk5', None), ('image', {'coord': Const('image')})):
+        construct = f'Polygon [{coordsys}]'
+        pr, sh, reg, (coords, lens) = eval_reader(m, ptpl, 'poly', global_meta=gm)
+        probs = []
+        want_cls = 'PolygonSkyRegion' if coordsys == 'fk5' else 'PolygonPixelRegion'
+        if reg is None or reg.cls != want_cls:
+            probs.append(f'`{ptpl}` is read as {show(reg, 120)}, not a {want_cls}')
+        elif coordsys == 'fk5':
+            reps = _find_apps_named(reg.fields.get('vertices'), 'UnitSphericalRepresentation')
+            r1 = show(reps[0].args[0], 600) if reps else ''
+            r2 = show(reps[0].args[1], 600) if reps else ''
+            if not (all(f'T{k}' in r1 for k in (1, 3, 5)) and all(f'T{k}' in r2 for k in (2, 4, 6))
+                    and not any(f'T{k}' in r1 for k in (2, 4, 6))):
+                probs.append(f'vertices are built from lon={r1[:100]}, lat={r2[:100]}')
+        else:
+            v = reg.fields.get('vertices')
+            xs = v.fields.get('x') if isinstance(v, Obj) else None
+            ys = v.fields.get('y') if isinstance(v, Obj) else None
+            ok = isinstance(xs, Tup) and isinstance(ys, Tup) and len(xs.items) == 3 and len(ys.items) == 3
+            if ok:
+                for items, ks in ((xs.items, (1, 3, 5)), (ys.items, (2, 4, 6))):
+                    for it, k in zip(items, ks):
+                        t = show(it, 200)
+                        if f'T{k}' not in t:
+                            probs.append(f'vertex component {t[:60]} is not bracket entry {k}')
+                        elif not t.startswith('attr:value('):
+                            probs.append(f'vertex component {t[:60]} reaches PixCoord as an angle/quantity object, not as a '
+                                         'number (the writer labels image-frame numbers "deg"): PixCoord arithmetic fails')
+                            break
+            else:
+                probs.append(f'vertices are {show(v, 160)}')
+        if probs:
+            ctx.bad(construct, 'polygon-slots', '; '.join(probs[:2]), tc.loc(), {'template': ptpl})
+        else:
+            ctx.ok(construct, 'three written vertices come back as (x: 1, 3, 5; y: 2, 4, 6)')
     # explicit statement clause: ellipse axes are [major, minor] semi-axes = [height/2, width/2]
     ser, ev, out = eval_writer(m, m.cls('EllipseSkyRegion'), 'fk5')
     fc = _format_call(out)
@@ -719,6 +772,7 @@ LEX_PROBES = {
         ('1.5rad', "astropy.coordinates.Angle('1.5rad')", 'radians carry their own unit'),
         ('18:20:30.12', "astropy.coordinates.Angle('18:20:30.12', astropy.units.hour)", 'a:b:c is hours'),
         ('10.11.54.69', "astropy.coordinates.Angle('10:11:54.69', pi*ANG/180)", 'a.b.c.d is degrees:arcmin:arcsec'),
+        ('10.11.54', "astropy.coordinates.Angle('10:11:54', pi*ANG/180)", 'a.b.c is degrees:arcmin:arcsec too'),
         ('10.5deg', "astropy.coordinates.Angle('10.5deg', pi*ANG/180)", 'decimal degrees'),
         ('+10d20m30s', "astropy.coordinates.Angle('+10d20m30s', pi*ANG/180)", 'dms notation is degrees'),
     ],
@@ -765,7 +819,7 @@ def r11(ctx):
 RULES = [
     RuleDef('R1', 'frame tables mutually inverse', r1, 8),
     RuleDef('R2', 'shape vocabulary: class -> type -> token -> class; text written', r2, 17),
-    RuleDef('R3', 'token-level writer∘reader: slots, units (radunit deg/arcsec/arcmin), ellipse axes', r3, 17),
+    RuleDef('R3', 'token-level writer∘reader: slots, units (radunit deg/arcsec/arcmin), ellipse axes; polygon vertices', r3, 19),
     RuleDef('R4', 'include / annotation prefixes on both sides', r4, 4),
     RuleDef('R5', 'global then inline metadata', r5, 2),
     RuleDef('R6', 'lengths need units', r6, 1),
